@@ -377,7 +377,30 @@ impl<
         // could still return an ambiguous offset).
         if this_index == starts.len() - 1 {
             if let Some(tz) = self.posix_tz() {
-                return tz.to_ambiguous_kind(dt);
+                let amb = tz.to_ambiguous_kind(dt);
+                // The rule may have a transition at the very instant of the
+                // last transition in the TZif data (that is where `zic` hands
+                // over to the rule). What happens at that instant is what the
+                // data records, and we determined above that `dt` is neither
+                // in a gap nor in a fold there. So a gap or fold reported by
+                // the rule is only real when it lies after that instant. For
+                // example, the rule of America/Nuuk sets the clock back at
+                // 2023-10-29T01:00Z, but the data records that the offset
+                // did not change then.
+                let last = Timestamp::from_second(self.timestamps()[this_index]);
+                let first_candidate = match amb {
+                    AmbiguousOffset::Unambiguous { .. } => None,
+                    AmbiguousOffset::Fold { before, .. } => {
+                        before.to_timestamp(dt).ok()
+                    }
+                    AmbiguousOffset::Gap { after, .. } => {
+                        after.to_timestamp(dt).ok()
+                    }
+                };
+                match (first_candidate, last) {
+                    (Some(ts), Ok(last)) if ts < last => {}
+                    _ => return amb,
+                }
             }
             // This case is unspecified according to RFC 8536. It means that
             // the given datetime exceeds all transitions *and* there is no
